@@ -1,3 +1,4 @@
 import TinyFlux.Audit.Tool
 import TinyFlux.Props.C08
+import TinyFlux.Props.C08State
 #audit TinyFlux.Props.C08
